@@ -570,6 +570,7 @@ def oracle(run, deep):
     custom_engines(run, found)
     factory_histories(run, found, deep)
     process_histories(run, found, deep)
+    int_limit_interpreters(run, found, deep)
 
 
 def operator_texts(syms):
@@ -604,7 +605,7 @@ def factory_histories(run, found, deep):
     from yaql.language import factory as F
     rng = run.rng
     hists = list(FIXED_FACTORY_HISTORIES)
-    for _ in range(run.n(10, 120) * (2 if deep else 1)):
+    for _ in range(run.n(6, 120) * (2 if deep else 1)):
         base = rng.choice(["default"] * 4 + ["legacy", "default+delegates", "nokw", "kw:="])
         try:
             calls = c02.gen_calls(rng, c02.spec_base(base), rng.randrange(1, 5), rng.random() < 0.2)
@@ -638,7 +639,27 @@ def factory_histories(run, found, deep):
             except ValueError:
                 continue
             create(i + 1)
-        all_syms = [c[2] for c in calls]
+        # factory.operators is a public list: direct edits between create() calls (rows removed, a row appended by hand)
+        edited, edit_log = [], []
+        if rng.random() < 0.6 or (base, calls) in FIXED_FACTORY_HISTORIES:
+            rows = [r for r in f.operators if r and r[0] not in ("[]", "{}")]
+            words = [r for r in rows if r[0].isidentifier()]
+            symbols = [r for r in rows if not r[0].isidentifier() and r[0] not in (".", "=>")]
+            for victim in ([rng.choice(words)] if words else []) + ([rng.choice(symbols)] if symbols else []):
+                for r in [r for r in f.operators if r and r[0] == victim[0]]:
+                    f.operators.remove(r)
+                edited.append(victim[0])
+                edit_log.append([victim[0], "removed"])
+                create(len(calls) + len(edited))
+            new_sym = rng.choice(["otherwise", "<>", "zz_op", "%%", "unless"])
+            if not any(r and r[0] == new_sym for r in f.operators):
+                kind_name = rng.choice(["BINARY_LEFT_ASSOCIATIVE", "PREFIX_UNARY"])
+                f.operators.append(())
+                f.operators.append((new_sym, getattr(F.OperatorType, kind_name)))
+                edited.append(new_sym)
+                edit_log.append([new_sym, "appended", kind_name])
+                create(len(calls) + len(edited))
+        all_syms = [c[2] for c in calls] + edited
         texts = base_texts + operator_texts(all_syms)
         for step, own, eng in engines:
             for t in texts:
@@ -660,11 +681,75 @@ def factory_histories(run, found, deep):
                     run.fail("violation", "C03 predicate fails on an engine created along a history of one factory "
                                           "(create / insert_operator / create): %s" % why,
                              {"factory_history": {"base": base, "calls": [list(c) for c in calls], "engine_created_after_call": step,
-                                                  "text": t},
+                                                  "direct_edits_of_factory_operators": edit_log, "text": t},
                               "how_to_read": "one factory object; an engine is created before the first insert_operator call and "
                                              "after every call; the failing engine is the one created after `engine_created_after_call` calls",
                               "theorems": ["C03_total_any_table", "C03_lex_total_any_table"]})
         run.case(("factory-history", base, len(calls)), nontrivial=True)
+
+
+def numeral_texts(limits, rng):
+    """numerals around every given digit limit, alone and inside longer expressions"""
+    out = []
+    sizes = set()
+    for lim in limits:
+        sizes |= {lim - 1, lim, lim + 1, lim + 50}
+    sizes |= {1, 5, 639, 640, 641, 4299, 4300, 4301, 5000, 20000}
+    for n in sorted(x for x in sizes if x > 0):
+        d = "".join(rng.choice("123456789") for _ in range(min(n, 40))) + "7" * max(0, n - 40)
+        out += [d, "0" * n, "0" * (n - 1) + "1" if n > 1 else "1", d + ".5", "1." + d, "f(" + d + ")", d + " + 1", "[" + d + ", 2]", "-" + d,
+                "x = " + d, "٣" * n, d + " " + d, "{a => " + d + "}", "$" + d, "'" + d + "'", d + "."]
+    return out
+
+
+def int_limit_interpreters(run, found, deep):
+    """The host may have lowered or lifted the interpreter's int<->str digit limit (PYTHONINTMAXSTRDIGITS,
+    -X int_max_str_digits, sys.set_int_max_str_digits - also after the engine was created): whatever the limit, only
+    YaqlParsingException subclasses may escape.  Long numerals around each limit, in fresh interpreters."""
+    import concurrent.futures
+    import subprocess
+    import sys
+    rng = run.rng
+    script = os.path.join(HERE, "harness", "intlimit.py")
+    configs = [("640", None), ("1000", None), ("0", None), (None, 640), (None, 2000), ("0", 700), (None, 0)]
+    if not run.quick or deep:
+        configs += [("%d" % rng.randrange(640, 4300), None), (None, rng.randrange(640, 4300)), ("5000", None), (None, 10000)]
+    jobs = []
+    for env_limit, set_after in configs:
+        lims = [int(x) for x in (env_limit, set_after) if x not in (None, "0", 0)]
+        texts = numeral_texts(lims or [4300], rng)
+        jobs.append((env_limit, set_after, texts))
+
+    def one(job):
+        env_limit, set_after, texts = job
+        env = dict(os.environ)
+        env.pop("PYTHONINTMAXSTRDIGITS", None)
+        if env_limit is not None:
+            env["PYTHONINTMAXSTRDIGITS"] = env_limit
+        p = subprocess.run([sys.executable, "-W", "ignore", script], input=json.dumps({"set_after": set_after, "texts": [lc.compress(t) for t in texts]}),
+                           capture_output=True, text=True, timeout=600, env=env)
+        if p.returncode != 0:
+            return {"limit": None, "failures": [{"index": 0, "why": "harness process failed: " + p.stderr[-300:]}]}
+        return json.loads(p.stdout)
+
+    with concurrent.futures.ThreadPoolExecutor(max_workers=6) as ex:
+        results = list(ex.map(one, jobs))
+    for (env_limit, set_after, texts), res in zip(jobs, results):
+        run.case(("int-limit", env_limit, set_after), nontrivial=True)
+        run.count("oracle:int-limit:texts", len(texts))
+        run.count("oracle:int-limit:" + ("ok" if not res["failures"] else "fail"))
+        if res["failures"] and "int-limit" not in found:
+            found.add("int-limit")
+            f = res["failures"][0]
+            t = texts[f["index"]]
+            run.fail("violation", "C03 predicate fails in an interpreter whose int-digit limit is not the default: %s" % f["why"],
+                     {"int_limit": {"PYTHONINTMAXSTRDIGITS": env_limit, "set_int_max_str_digits_after_engine_creation": set_after,
+                                    "limit_in_force": res["limit"]},
+                      "input": lc.compress(t), "input_repr": lc.printable(t),
+                      "required": "a statement, or YaqlLexicalException/YaqlGrammarException with the position inside the text",
+                      "theorems": ["C03_lex_total (the numeral action reports an over-long numeral as a lexical error whatever "
+                                   "max_digits is)", "C03_total_any_table"]})
+    run.note("oracle: %d fresh interpreters with other int-digit limits" % len(jobs))
 
 
 def process_histories(run, found, deep):
@@ -833,6 +918,16 @@ def replay(run, data):
         p = subprocess.run([sys.executable, "-W", "ignore", os.path.join(HERE, "harness", "multiengine.py")],
                            input=json.dumps(d["process_history"]), capture_output=True, text=True, timeout=300)
         return p.returncode == 0 and not json.loads(p.stdout)
+    if "int_limit" in d:
+        import subprocess
+        env = dict(os.environ)
+        env.pop("PYTHONINTMAXSTRDIGITS", None)
+        if d["int_limit"]["PYTHONINTMAXSTRDIGITS"] is not None:
+            env["PYTHONINTMAXSTRDIGITS"] = d["int_limit"]["PYTHONINTMAXSTRDIGITS"]
+        p = subprocess.run([sys.executable, "-W", "ignore", os.path.join(HERE, "harness", "intlimit.py")],
+                           input=json.dumps({"set_after": d["int_limit"]["set_int_max_str_digits_after_engine_creation"], "texts": [d["input"]]}),
+                           capture_output=True, text=True, timeout=600, env=env)
+        return p.returncode == 0 and not json.loads(p.stdout)["failures"]
     if "factory_history" in d:
         from props import c02
         from yaql.language import factory as F
@@ -846,6 +941,19 @@ def replay(run, data):
                 continue
             e2 = f.create()
             if i + 1 <= h["engine_created_after_call"]:
+                eng = e2
+        for j, ed in enumerate(h.get("direct_edits_of_factory_operators", [])):
+            if ed[1] == "removed":
+                for r in [r for r in f.operators if r and r[0] == ed[0]]:
+                    f.operators.remove(r)
+            else:
+                f.operators.append(())
+                f.operators.append((ed[0], getattr(F.OperatorType, ed[2])))
+            try:
+                e2 = f.create()
+            except Exception:
+                continue
+            if len(h["calls"]) + j + 1 <= h["engine_created_after_call"]:
                 eng = e2
         saved = lc._engine
         lc._engine = eng
